@@ -823,6 +823,11 @@ def check(col, prog, tier, profile, fixture=None):
         ok = names[:3] == ["iter", "map", "sum"] or [n for n in names if n in ("iter", "map", "sum", "take", "skip", "filter")] == ["iter", "map", "sum"]
         cl = [c for c in crate.closures_of(b)]
         ok = ok and len(cl) == 1 and any(t["fn"].get("name") == "count_ones" for bb, t in cl[0].calls())
+        # ... in a type that holds N*64: the per-word counts are widened BEFORE they are added (a `sum::<u8>()` of 64s wraps at
+        # the fourth full word)
+        WIDE = ("usize", "u64", "u128", "u32", "i64", "i128", "isize")
+        sums = [e for e in st.event_list() if e.kind == "call" and e.extra.get("name") == "sum"]
+        ok = ok and all(str((e.fn.get("args") or ["?"])[-1]) in WIDE for e in sums) and (not cl or str(cl[0].locals[0]["ty"]) in WIDE)
     if not ok:
         # explicit accumulation loop over every word: total += word.count_ones()
         for h, sts in I.backedge_states.items():
@@ -908,6 +913,48 @@ def check(col, prog, tier, profile, fixture=None):
                 seen_f = seen_f or truth is False
             if okl and seen_t and seen_f:
                 okr = tests = True
+        if not (okr and tests):
+            # internal iteration: (0..N*64).try_for_each(|i| f.write_str(if self.test(i) { "1" } else { "0" }))
+            full = (("bin", "Mul", ("gparam", GN[0]), mk_int(W)), ("bin", "Mul", mk_int(W), ("gparam", GN[0])), ("bin", "Shl", ("gparam", GN[0]), mk_int(LOGW)))
+            for st in I.final_states:
+                fes = [e for e in st.event_list() if e.kind == "call" and e.extra.get("name") in ("try_for_each", "for_each") and len(e.args) >= 2]
+                if len(fes) != 1:
+                    continue
+                r, clo = fes[0].args[0], fes[0].args[1]
+                rng_ok = r[0] == "agg" and isinstance(r[1], tuple) and str(r[1][1]).endswith("ops::Range") and r[2][0] == mk_int(0) and r[2][1] in full
+                if not rng_ok:
+                    # `(0..N*64)` behind `&mut` (try_for_each takes the iterator by reference)
+                    av = (fes[0].extra.get("argvals") or [None])[0]
+                    rng_ok = isinstance(av, tuple) and av and av[0] == "agg" and isinstance(av[1], tuple) and str(av[1][1]).endswith("ops::Range") and av[2][0] == mk_int(0) and av[2][1] in full
+                cb_ = crate.by_key.get(clo[1][1]) if clo[0] == "agg" and isinstance(clo[1], tuple) and clo[1][0] == "closure" else None
+                if not rng_ok or cb_ is None:
+                    continue
+                Ic = util.analyse(cb_)
+                item = ("param", 2, Ic.names.get(2))
+                seen_t = seen_f = False
+                okc = bool(Ic.final_states)
+                for cst in Ic.final_states:
+                    cev = cst.event_list()
+                    ts = [e for e in cev if e.kind == "call" and e.extra.get("name") == "test"]
+                    ws = [e for e in cev if e.kind == "call" and e.extra.get("name") in ("write_char", "push", "write_str", "push_str")]
+                    if len(ts) != 1 or len(ws) != 1 or ts[0].args[1] != item:
+                        okc = False
+                        continue
+                    truth = None
+                    for f in cst.facts:
+                        if f[1] == ts[0].res and f[0] in ("eq", "ne"):
+                            truth = (f[0] == "eq") == bool(f[2])
+                    ch = ws[0].args[1]
+                    chv = ch[1] if ch[0] == "int" else None
+                    for s_ in [ch] + list(subterms(ch)):
+                        if s_[0] == "cst" and str(s_[1]).strip('"') in ("0", "1"):
+                            chv = 48 + int(str(s_[1]).strip('"'))
+                    if truth is None or chv != (49 if truth else 48) or util.ret_term(cst) != ws[0].res and fes[0].extra.get("name") == "try_for_each":
+                        okc = False
+                    seen_t = seen_t or truth is True
+                    seen_f = seen_f or truth is False
+                if okc and seen_t and seen_f and util.ret_term(st) == fes[0].res:
+                    okr = tests = True
         if okr and tests:
             col.ok("K4" + sfx, fb.loc(), key, "(0..N*64).map(|i| test(i))")
         else:
